@@ -940,6 +940,9 @@ func (w *World) foreignContinuation(repo, subj, rawQuery string) {
 		for _, d := range append(must, may...) {
 			allowed[d] = true
 		}
+		for d := range w.m.repo(t.repo).staleRef[t.subj] {
+			allowed[d] = true // known family [artifact deleted after its blob]: still listed in its own repository
+		}
 		for _, d := range descs {
 			if !allowed[d.Digest] {
 				if t.repo != repo {
